@@ -73,7 +73,9 @@ class Interp:
             v = self.force(ctx, v)
             if k == "f":
                 if isinstance(v, (Struct, EnumV)): v = v.fields[p[1]]
-                elif isinstance(v, Closure): v = v.caps[p[1]]
+                elif isinstance(v, Closure):
+                    if p[1] >= len(v.caps): raise Unsupported(f"closure capture {p[1]} of {v.loc} (has {len(v.caps)})")
+                    v = v.caps[p[1]]
                 elif isinstance(v, tuple) and not isinstance(v, VecV):
                     v = v[p[1]]
                 else:
@@ -270,6 +272,7 @@ class Interp:
             x = self.operand(ctx, fr, rv[1])
             return VecV([x] * n)
         if k == "closure":
+            if rv[2] and rv[2][-1][0] == "!unrecoverable": raise Unsupported(rv[2][-1][1][1])
             return Closure(rv[1], [self.operand(ctx, fr, o) for _, o in rv[2]], [n for n, _ in rv[2]])
         if k == "struct":
             names = [n for n, _ in rv[2]]
@@ -327,12 +330,14 @@ class Interp:
         if op in ("Add", "AddUnchecked"): return a + b
         if op in ("Sub", "SubUnchecked"): return a - b
         if op in ("Mul", "MulUnchecked"): return a * b
-        if op == "Div":
-            if isinstance(a, int) and isinstance(b, int): return a // b
-            return a / b
-        if op == "Rem":
-            if isinstance(a, int) and isinstance(b, int): return a % b
-            return a % b
+        if op in ("Div", "Rem"):
+            if isinstance(a, int) and isinstance(b, int): return a // b if op == "Div" else a % b
+            if isinstance(b, int): return a / b if op == "Div" else a % b
+            # symbolic divisor: fresh quotient / remainder with the division lemma (the preceding MIR assert excludes b == 0)
+            q, r = ctx.fresh_int("quot", 0, None), ctx.fresh_int("rem", 0, None)
+            ctx.assume(a == q * b + r)
+            ctx.assume(z3.Or(r < b, b == 0))
+            return q if op == "Div" else r
         if op in ("Eq", "Ne", "Lt", "Le", "Gt", "Ge"):
             if isinstance(a, bool) or isinstance(b, bool) or (is_sym(a) and z3.is_bool(a)):
                 if op == "Eq": return zeq(a, b)
